@@ -604,7 +604,7 @@ impl BuiltInFunction {
                     return Err(RuntimeError::from("median requires at least one number"));
                 }
 
-                nums.sort_by(|a, b| a.partial_cmp(b).unwrap());
+                nums.sort_by(|a, b| a.total_cmp(b));
                 let len = nums.len();
                 if len % 2 == 0 {
                     Ok(Value::Number((nums[len / 2 - 1] + nums[len / 2]) / 2.0))
@@ -627,7 +627,11 @@ impl BuiltInFunction {
                     .map(|a| a.as_number())
                     .collect::<AnyhowResult<Vec<f64>>>()?;
 
-                nums.sort_by(|a, b| a.partial_cmp(b).unwrap());
+                if nums.is_empty() {
+                    return Err(RuntimeError::from("percentile requires at least one number"));
+                }
+
+                nums.sort_by(|a, b| a.total_cmp(b));
                 let index = (p / 100.0 * (nums.len() - 1) as f64).round() as usize;
 
                 Ok(Value::Number(nums[index]))
